@@ -5,34 +5,35 @@ From Coq Require Import List Arith NArith Bool Lia.
 From SV Require Import Base.Base IR.State IR.NS Names.Edifify Proofs.NamesDec Proofs.NamesSuffix.
 Import ListNotations.
 
-(* the strings a candidate is compared with *)
+(* the (lower-cased) strings a candidate is compared with *)
 Definition forb (i : nat) (objs : list sib) : list str :=
-  flat_map (fun e => s_name e :: match s_ident e with Some v => [v] | None => [] end) (others i objs).
+  flat_map (fun e => lower (s_name e) :: match s_ident e with Some v => [lower v] | None => [] end) (others i objs).
 
-Lemma clash_In x e : clash x e = true -> s_name e = x \/ s_ident e = Some x.
+Lemma clash_In x e : clash x e = true -> lower (s_name e) = lower x \/ exists v, s_ident e = Some v /\ lower v = lower x.
 Proof.
   unfold clash. intro H. apply orb_true_iff in H as [H|H].
   - left. apply str_eqb_spec. exact H.
-  - right. destruct (s_ident e) as [v|]; [|discriminate]. apply str_eqb_spec in H. congruence.
+  - right. destruct (s_ident e) as [v|]; [|discriminate]. apply str_eqb_spec in H. exists v. auto.
 Qed.
 
-Lemma conflicts_good_false i x objs : conflicts_good i x objs = false -> In x (forb i objs).
+Lemma conflicts_good_false i x objs : conflicts_good i x objs = false -> In (lower x) (forb i objs).
 Proof.
   unfold conflicts_good, forb. induction (others i objs) as [|e l IH]; cbn; [discriminate|].
   intro H. apply andb_false_iff in H as [H|H].
-  - apply negb_false_iff in H. apply clash_In in H as [H|H].
+  - apply negb_false_iff in H. apply clash_In in H as [H|(v & Hv & H)].
     + left. exact H.
-    + right. apply in_or_app. left. rewrite H. left. reflexivity.
+    + right. apply in_or_app. left. rewrite Hv. left. exact H.
   - right. apply in_or_app. right. apply IH. exact H.
 Qed.
 
 Lemma conflicts_good_true i x objs :
-  conflicts_good i x objs = true -> forall e, In e (others i objs) -> s_name e <> x /\ s_ident e <> Some x.
+  conflicts_good i x objs = true -> forall e, In e (others i objs) ->
+  lower (s_name e) <> lower x /\ (forall v, s_ident e = Some v -> lower v <> lower x).
 Proof.
   unfold conflicts_good. rewrite forallb_forall. intros H e He. specialize (H e He).
   apply negb_true_iff in H. unfold clash in H. apply orb_false_iff in H as [H1 H2]. split.
-  - intro E. subst. rewrite str_eqb_refl in H1. discriminate.
-  - intro E. rewrite E, str_eqb_refl in H2. discriminate.
+  - intro E. rewrite E, str_eqb_refl in H1. discriminate.
+  - intros v Hv E. rewrite Hv, E, str_eqb_refl in H2. discriminate.
 Qed.
 
 Lemma others_length i (objs : list sib) : length (others i objs) <= length objs.
@@ -44,7 +45,7 @@ Lemma forb_length i objs : length (forb i objs) <= 2 * length objs.
 Proof.
   unfold forb. pose proof (others_length i objs) as H. revert H.
   generalize (others i objs) as l. intros l H.
-  assert (G : length (flat_map (fun e => s_name e :: match s_ident e with Some v => [v] | None => [] end) l) <= 2 * length l).
+  assert (G : length (flat_map (fun e => lower (s_name e) :: match s_ident e with Some v => [lower v] | None => [] end) l) <= 2 * length l).
   { clear H. induction l as [|e l IH]; cbn [flat_map length]; [lia|].
     rewrite app_length. destruct (s_ident e); cbn [length]; lia. }
   lia.
@@ -107,7 +108,7 @@ Proof.
   induction fuel as [|f IH]; intros b n H; [lia|].
   cbn [conflicts_fix]. rewrite lower_app, lower_sfx.
   destruct (conflicts_good i (lower b ++ sfx n) objs) eqn:E; [discriminate|].
-  apply conflicts_good_false in E. apply cnt_step in E.
+  apply conflicts_good_false in E. rewrite lower_app, lower_sfx, lower_idem in E. apply cnt_step in E.
   destruct (next_candidate (lower b) n) as [b' ->]. apply IH. lia.
 Qed.
 
